@@ -1,11 +1,12 @@
 """C03 — variable classification, ordering and lag/lead lengths match the script."""
-import itertools, json
+import itertools, json, random
 
 import fsic
 from fsic import parser as P
 
 import gen_scripts as gs
 import parser_common as pc
+import solver_common as sc
 
 ID = 'C03'
 LEAN_MODULE = 'Proofs.C03'
@@ -15,11 +16,11 @@ THEOREMS = ['Fsic.C03.' + n for n in [
     'classify_rejects', 'rejection_class', 'accepted_iff', 'rejects_symbolError', 'rejects_parserError',
     'identical_duplicates_accepted', 'combine_error_class', 'symbol_order', 'names_partition', 'lags_leads_spec',
     'explicit_replace', 'min_only_raise', 'default_range_feasible', 'default_range_enumerated',
-    'default_range_is_solve_range', 'default_range_is_accepted_periods']]
+    'default_range_single', 'default_range_is_solve_range', 'default_range_is_accepted_periods']]
 RULE = ('grammar programs (gen_scripts.gen_program, multi-equation, named periods mixed with integer offsets, LHS '
         'offsets) plus AST mutations {duplicate equation, second different equation for one name, name used with two '
         'kinds, variable first read with a lead and later assigned / read with a lag}, rendered under plain and '
-        'spacing layouts, crossed with lags/leads in {None,0,1,3} x min_lags/min_leads in {default,0,1,3} (full '
+        'spacing layouts, crossed with instance histories for the default range (fresh / copy of a used instance / used wider instance reindexed down / reindexed to a longer and to a shifted span / lags and leads changed between calls, over range, list, tuple, NumPy int/str, str-list and PeriodIndex spans, span lengths LAGS+LEADS+{0,1,2,3}) and with lags/leads in {None,0,1,3} x min_lags/min_leads in {default,0,1,3} (full '
         '256-grid on a subset, a 16-row Latin design otherwise) and span lengths around LAGS+LEADS; plus the exhaustive '
         'Symbol.combine lattice over 9x9 types x 5x5 lags x 3x3 equations and hand-written statements with '
         'function/keyword/verbatim terms. distinct = distinct (script text, option set); non-trivial = >= 2 '
@@ -35,6 +36,7 @@ META = {
     "technique": "Lean 4 proof (per-key decomposition of the two dict folds, a membership-based summary invariant composed over both levels, failing-step analysis for the error classes, omega for the range) + differential correspondence check + AST-level oracle"
 }
 
+SPAN_KINDS = ['range', 'list', 'tuple', 'nparray', 'npshift', 'npstr', 'strlist', 'period']
 OPT_VALUES = [None, 0, 1, 3]
 LAYOUTS = ['plain', 'plain', 'plain', 'tight', 'wide', 'brace_spaces', 'index_spaces', 'explicit_zero', 'plus_sign']
 
@@ -146,6 +148,67 @@ def default_periods(Model, labels):
         return {'ok': [int(i) for i, _ in m.iter_periods()]}
     except Exception as e:  # noqa: BLE001
         return {'err': pc.exc_name(e)}
+
+
+HISTORIES = ['copy', 'reindexed', 'reindex-longer', 'reindex-shifted', 'lags-changed', 'called-twice']
+
+
+def span_for(kind, n):
+    if kind == 'strlist':
+        return [str(2000 + i) for i in range(n)]
+    if kind == 'period':
+        import pandas as pd
+        return pd.period_range(start='2000', periods=n, freq='Y')
+    return sc.span_of(kind, n)
+
+
+def history_periods(Model, kind, n, how, names):
+    """The default range of an instance with a HISTORY (the property speaks of the model and its span, not of how the
+    instance came about).  Returns (observation, target span as a list, (dlags, dleads) added to the instance)."""
+    span = span_for(kind, n)
+    extra = (0, 0)
+    try:
+        if how in ('copy', 'reindexed'):
+            m = sc.with_provenance(Model, span, how, names)
+            target = span
+        elif how in ('reindex-longer', 'reindex-shifted'):
+            m0 = Model(span)
+            sc.warm(m0, names)
+            w = sc.wider(span)
+            if w is None:
+                return None
+            w = list(w)
+            target = w if how == 'reindex-longer' else w[1:1 + n]      # longer by 3 / same length, moved by one label
+            m = m0.copy().reindex(target)
+        elif how == 'lags-changed':
+            m = Model(span)
+            list(m.iter_periods())
+            m.lags = m.lags + 1
+            m.leads = m.leads + 1
+            extra = (1, 1)
+            target = span
+        else:   # called-twice
+            m = Model(span)
+            list(m.iter_periods())
+            target = span
+        pairs = list(m.iter_periods())
+        return ({'ok': [int(i) for i, _ in pairs], 'labels': [repr(x) for _, x in pairs]}, [repr(x) for x in list(target)], extra)
+    except Exception as e:  # noqa: BLE001
+        return ({'err': pc.exc_name(e)}, [repr(x) for x in list(span)], extra)
+
+
+def oracle_history(case, o, kind, n, how, obs, rep, want_lags, want_leads):
+    got, target, (dl, dd) = obs
+    info = info_of(case, opts=o, n=n, span_kind=kind, history=how)
+    L, D, N = want_lags + dl, want_leads + dd, len(target)
+    want = list(range(L, N - D))
+    if 'err' in got:
+        if want and not (L >= N or D >= N):
+            rep.violate('default-range-history', f'{how}: iter_periods() raised {got["err"]}, expected positions {want}', info)
+        return
+    if got['ok'] != want or got['labels'] != [target[i] for i in want]:
+        rep.violate('default-range-history', f'{how} ({kind} span of {N}): default range positions {got["ok"]} labels {got["labels"]}, '
+                    f'expected positions {want} labels {[target[i] for i in want]}', info)
 
 
 # ---- oracle: the property text restated over the generator's AST -------------------------------------------------
@@ -263,7 +326,7 @@ def run_program(ctx, rep, case, options, batch):
         rep.case((text,), nontrivial=True, sample={'text': text, 'result': real['err']} if rep.evaluations % 211 == 0 else None)
         return
     symbols = real['ok']
-    for o in options:
+    for oi, o in enumerate(options):
         built = pc.impl(fsic.build_model, symbols, **kwargs_of(o))
         if 'err' in built:
             if accepted:
@@ -276,11 +339,23 @@ def run_program(ctx, rep, case, options, batch):
                  sample={'text': text, 'opts': o, 'attrs': attrs} if rep.evaluations % 1999 == 0 else None)
         if accepted:
             wl, wd = oracle_class(case, prog, o, attrs, rep)
-            for n in sorted({len(case['labels']), max(1, wl + wd), wl + wd + 2}):
+            sizes = sorted({len(case['labels']), max(1, wl + wd), wl + wd + 1, wl + wd + 2})
+            for n in sizes:
                 labels = [str(2000 + i) for i in range(n)] if isinstance(case['labels'][0], str) else list(range(2000, 2000 + n))
                 got = default_periods(Model, labels)
                 oracle_range(case, prog, o, n, got, wl, wd, rep)
-                rep.dist['range:' + ('empty' if not got.get('ok') else 'nonempty')] += 1
+                rep.dist['range:' + ('empty' if not got.get('ok') else 'one-period' if len(got['ok']) == 1 else 'nonempty')] += 1
+            # instances with a history, every span type (a sample of option sets per program: the first and every 5th)
+            if oi % 5 == 0:
+                hrng = random.Random(f"{case['prog']}:{oi}")
+                for how in HISTORIES:
+                    kind = hrng.choice(SPAN_KINDS)
+                    n = hrng.choice(sizes[1:] + [wl + wd + 3])
+                    obs = history_periods(Model, kind, n, how, attrs['NAMES'][:2])
+                    if obs is not None:
+                        oracle_history(case, o, kind, n, how, obs, rep, wl, wd)
+                        rep.dist['history:' + how] += 1
+                        rep.dist['span-kind:' + kind] += 1
         if not ctx.oracle_only:
             batch.append(('build_model_definition: buildLists(real symbols) != class attributes', {'text': text, 'opts': o},
                           pc.line('p_build_lists', {'symbols': real_j['ok'], 'lags': o['lags'], 'leads': o['leads'],
